@@ -101,6 +101,12 @@ def one_case_once(ctx, idx, old, new, nbuf, kill_at=None, fsize=None, delete=Fal
     key = "18001"     # the two keys differ in bit 16 only (an inbound marker and the outbound record of one packet identifier)
     other = "8001"
     helper(ctx, "save", d, other, 9, 33, 1)
+    if idx % 3 == 0:
+        # unrelated entries in the directory (names of every length, five characters that are no key, a directory): List skips them
+        for name in (".lock", "notes", "zzzzz", "8001x", "0800", "008001", "README.txt"):
+            with open(os.path.join(d, name), "w") as fh:
+                fh.write("unrelated")
+        os.makedirs(os.path.join(d, "backup"))
     if old is not None:
         helper(ctx, "save", d, key, 1, old, 1)
     if leftover is not None:
